@@ -31,8 +31,8 @@ def run(ctx):
     jobs = [
         ("edges, 1..%d parts, all classes" % (4 if quick else 6), "PartSet_qe.cfg" if quick else "PartSet_te.cfg", dict(tags=("EDGE",))),
         ("every arrival order, %s parts" % ("3..5" if quick else "4..7"), "PartSet_pq.cfg" if quick else "PartSet_pt.cfg", dict(tags=("EDGE",))),
-        ("simulation, 5..17 parts, depth 40", "PartSet_sim.cfg",
-         dict(mode="simulate", simulate=300 if quick else 5000, depth=42, tags=("TRACE",), workers=1)),
+        ("simulation, 5..17 parts, 40 adds", "PartSet_sim.cfg",
+         dict(mode="simulate", simulate=120 if quick else 4000, depth=44, tags=("TRACE",), workers=1)),
     ]
     out = {}
 
